@@ -189,18 +189,20 @@ SetToSeq(S) ==
     IN F(S)
 \* Hermitian and every principal minor >= 0 (numerators: sign is that of the minor
 \* because the denominator is positive)
-IsPSD(M) ==
-    /\ IsHermitian(M)
-    /\ \A S \in (SUBSET (1..M.r)) \ {{}}:
-          LET s == SetToSeq(S)
-              dm == DetN(MGather(M, s, s))
-          IN dm[2] = 0 /\ dm[1] >= 0
 IsPD(M) ==
     /\ IsHermitian(M)
     /\ \A k \in 1..M.r:
           LET s == [i \in 1..k |-> i]
               dm == DetN(MGather(M, s, s))
           IN dm[2] = 0 /\ dm[1] > 0
+\* (Sylvester for the definite case first: n determinants instead of 2^n - 1)
+IsPSD(M) ==
+    /\ IsHermitian(M)
+    /\ \/ IsPD(M)
+       \/ \A S \in (SUBSET (1..M.r)) \ {{}}:
+             LET s == SetToSeq(S)
+                 dm == DetN(MGather(M, s, s))
+             IN dm[2] = 0 /\ dm[1] >= 0
 IsPermutationMatrix(M) ==
     /\ IsSquare(M) /\ M.d = 1
     /\ \A i \in 1..M.r: Cardinality({j \in 1..M.c: M.e[i][j] # CZ}) = 1
